@@ -28,7 +28,7 @@ RULE = ("integer tensors <= 4x3x3 (1- to 4-way, singleton modes, low-rank + nois
         "is the scale-free one), tolerances {1e-5, 1e-3, 1e-2, 0.05..0.9}, "
         "narrow integer holders (uint8/int16/int32; values 0..255, 0..15 (no square wraps), multiples of 16 (squares 0 mod 256), 182..255 (squares negative in int16); "
         "the starting factors returned by tucker_als(init='nvecs') must span invariant subspaces of the mode Gram matrices of the data; hosvd_print = the same request at the "
-        "default verbosity: printed ||X-T||/||X|| = recomputed, no warning, no crash, and for narrow holders the rank rule (finding C10-N02)), "
+        "default verbosity: printed ||X-T||/||X|| = recomputed, no warning, no crash, and the rank rule; the witnesses of the repaired finding C10-N02 (squares wrapping to 0 / negative in uint8 / int16) are fixed regression cases), "
         "rank vectors within the mode sizes (all given, all automatic, mixed given/automatic), sequential True/False, all/random mode "
         "orders, the caller's ranks array observed after the call, tucker_als with list/nvecs/random init, maxiters 0..4 (0 must be rejected: finding C10-N01), stoptol {0, 1e-4, 1e-2, 0.3}: the stop rule is evaluated in Coq "
         "(transliterated loop replaying the per-iteration fits = reported fits of the runs truncated at 1..k iterations, cross-checked with the lines printed by the run itself); "
@@ -52,7 +52,7 @@ EXPLANATION = ("C10_rank_choice / C10_given_ranks / C10_ncols: theorems about th
                "the abstract space and projectors instantiated by dense real tensors and ttm with U U^T; Props/C10Loop.v: bookkeeping of the "
                "transliterated hosvd / tucker_als loops (validation, ranks, modes treated once, iteration count, fit trace, stop rule); Props/C10W3b.v: C10_tucker_full "
                "(the reconstruction recomputed by the correspondence = pyttb's ttm kernel over all modes = den_t), C10_stop_rule_check (soundness of the stop-rule check run on "
-               "every sampled tucker_als trace), C10_wrapped_normsq_le / C10_smaller_budget_safe (finding C10-N02 cannot break the error bound); the correspondence recomputes every claimed "
+               "every sampled tucker_als trace), C10_wrapped_normsq_le / C10_smaller_budget_safe (a squared norm formed in a wrapping integer type — the repaired finding C10-N02 — could not break the error bound); the correspondence recomputes every claimed "
                "relation exactly in Qc on pyttb's returned factors and core.")
 
 GRID = 2 ** 40
@@ -264,8 +264,14 @@ def gen_cases(rng, tier):
                       "sequential": rng.random() < 0.5, "dimorder": list(rng.choice(perms)), "dtype": dt}
                 cases.append(Case("hosvd_auto", dict(ha), nt))
                 # the same request with the default verbosity: printed relative error, no warning, no crash; rank rule also for the
-                # narrow holder (the squared norm must not be formed in the holder's dtype: finding C10-N02)
+                # narrow holder (the squared norm must not be formed in the holder's dtype: repaired finding C10-N02)
                 cases.append(Case("hosvd_print", dict(ha), nt))
+    # regression inputs of the repaired finding C10-N02 (/repo 2956bb2): every square is 0 mod 256 in uint8 / the sum of squares is
+    # negative in int16; same answer as the float64 holder demanded (ranks by the rule, printed error, no warning, no crash)
+    for shp2, dat2, dt2 in (((2, 3), [16, 16, 16, 16, 16, 32], "uint8"), ((2, 2), [200, 200, 200, 13], "int16")):
+        for op2 in ("hosvd_print", "hosvd_auto"):
+            cases.append(Case(op2, {"shape": list(shp2), "data": dat2, "tol": [1, 2], "sequential": True, "dimorder": [0, 1],
+                                    "dtype": dt2}, True))
     # graded spectra with tight tolerances (unscaled; the scaled copies follow)
     for shp in shapes:
         d = len(shp)
@@ -334,10 +340,8 @@ def run_impl(c):
             T = ttb.hosvd(X, tol, verbosity=0, dimorder=list(a["dimorder"]), sequential=a["sequential"])
             o = _obs_tt(np, T, k)
             o["certs"], o["margin"] = _certs(np, a, T)
-            if Xref is not None:
-                # narrow holders: the rank rule (minimality) is compared by the hosvd_print case of the same request (finding C10-N02);
-                # here: structure and error bound only
-                o["margin"] = 0.0
+            # narrow integer holders: same values, same answer as the float64 holder (the squared norm is formed in double precision
+            # since /repo 2956bb2, former finding C10-N02): structure, error bound AND the rank rule are compared
             return o
         if c.op == "hosvd_print":
             # default verbosity (1): hosvd reconstructs the result and prints ||X-T||/||X||; it warns when the tolerance is not met
@@ -426,28 +430,7 @@ def run_impl(c):
 
 
 # ---------------------------------------------------------------- known findings
-_BITS = {"uint8": (8, False), "int8": (8, True), "int16": (16, True), "uint16": (16, False), "int32": (32, True), "uint32": (32, False)}
-
-
-def _wrapped_normsq(data, dtype):
-    """sum of the squares formed in the holder's own integer dtype (two's complement wrap-around), summed exactly"""
-    b, signed = _BITS[dtype]
-    tot = 0
-    for x in data:
-        w = (x * x) % (1 << b)
-        if signed and w >= 1 << (b - 1):
-            w -= 1 << b
-        tot += w
-    return tot
-
-
-def _norm_wraps(c):
-    a = c.args
-    return c.op == "hosvd_print" and a.get("dtype") in _BITS and _wrapped_normsq(a["data"], a["dtype"]) != sum(x * x for x in a["data"])
-
-
-TRIGGERS = {"tals_maxiters_zero": lambda c: c.op == "tucker_als" and c.args.get("maxiters") == 0,
-            "hosvd_normsq_wraps": _norm_wraps}
+TRIGGERS = {"tals_maxiters_zero": lambda c: c.op == "tucker_als" and c.args.get("maxiters") == 0}
 
 
 def _wit_n01():
@@ -464,21 +447,7 @@ def _wit_n01():
     return "tucker_als(X, [1,2,2], maxiters=0) returned a result without running a sweep"
 
 
-def _wit_n02():
-    import numpy as np
-    import pyttb as ttb
-    X = ttb.tensor(np.array([[16, 16, 16], [16, 16, 32]], dtype="uint8"))      # every square is 0 mod 256
-    try:
-        with contextlib.redirect_stdout(io.StringIO()):
-            T = ttb.hosvd(X, 0.5)
-    except Exception as ex:
-        return f"hosvd(uint8 [[16,16,16],[16,16,32]], tol=0.5) raised {type(ex).__name__}: {ex}"
-    if T.core.shape != (1, 1):
-        return f"hosvd(uint8 [[16,16,16],[16,16,32]], tol=0.5) keeps core {T.core.shape}; the float64 holder of the same values gives (1, 1)"
-    return None
-
-
-WITNESSES = {"C10-N01": _wit_n01, "C10-N02": _wit_n02}
+WITNESSES = {"C10-N01": _wit_n01}
 
 
 # ---------------------------------------------------------------- Coq side
@@ -538,7 +507,7 @@ def coq_check(c, o):
             return "false"
         tol = Fraction(a["tol"][0], a["tol"][1])
         e = f"tucker_struct eps9 {X} {T} && relprint_ok eps9 {gq(o['printed'])} {X} {T}"
-        if "dtype" in a and o["margin"] > MARGIN:
+        if o["margin"] > MARGIN:
             certs = "[" + "; ".join(f"({gqmat(ct['W'])}, {gqlist(ct['mu'])})" for ct in o["certs"]) + "]"
             e += f" && auto_ranks_ok {gq(CERT_EPS)} {gq(tol * tol)} {gbool(a['sequential'])} {X} {gnlist(a['dimorder'])} {T} {certs}"
         return e
